@@ -712,7 +712,10 @@ def st_crowd(files):
     move = st.tuples(st.lists(st.floats(-1, 1), min_size=3, max_size=3), st.floats(-12, 12),
                      st.lists(st.floats(-0.9, 0.9), min_size=3, max_size=3)).map(list)
     return st.fixed_dictionaries({"kind": st.just("crowd"), "file": st.sampled_from(files), "start": st.integers(0, 10 ** 6),
-                                  "run": st.integers(1, 3), "moves": st.lists(move, min_size=2, max_size=16)})
+                                  "run": st.integers(1, 3), "moves": st.lists(move, min_size=2, max_size=16),
+                                  # copies that lack their C1' atoms (bases without a defined glycosidic torsion) compete
+                                  # with the complete copies for the edges of their partners
+                                  "no_c1": st.lists(st.sampled_from([False, False, True]), min_size=16, max_size=16)})
 
 
 def build_crowd(case):
@@ -737,7 +740,9 @@ def build_crowd(case):
         if any(float(np.linalg.norm(t - q)) < 0.05 for q in placed):
             continue
         placed.append(t)
+        strip = bool(case.get("no_c1") and case["no_c1"][c % len(case["no_c1"])])
         part = rebuild(s3, keep=set(run), point_fn=lambda xyz, ri, k, R=R, t=t: R @ (xyz - centre) + centre + t,
-                       ident_fn=lambda ri, chain, number, c=c: (chains[c], number))
+                       ident_fn=lambda ri, chain, number, c=c: (chains[c], number),
+                       atom_keep=(lambda ri, k: s3.residues[ri].atoms[k].name != "C1'") if strip else None)
         residues += list(part.residues)
     return Structure3D(residues)
